@@ -1804,7 +1804,10 @@ impl<'a> Query<'a> {
 
         if self.has_subqueries() {
             s += "\n{\n";
-            for subquery in self.subqueries() {
+            for (i, subquery) in self.subqueries().enumerate() {
+                if i > 0 {
+                    s += " |\n";
+                }
                 s.push(' ');
                 s += &subquery.to_string()?;
             }
